@@ -439,5 +439,5 @@ class Dynamics(NetworkExperiment):
                 (et, _, p, pef, e, name) = cast(PostedEvent, pe)
                 self.setCurrentSimulationTime(et)  # set the correct time
                 pef()
-                self.eventFired(t, p, name, e)
+                self.eventFired(et, p, name, e)  # report the event's own time, not the batch bound
                 n += 1
